@@ -45,6 +45,15 @@ def closure_effects(F, agg, argterm):
     return mir.Walker(body, init_env=env).run()
 
 
+def norm_ok(t, depth=0):
+    """`match r { Ok(v) => .. }` and `r?` name the same payload: ('field', ('variant', r, 'Ok'), '0') -> ('okval', r)"""
+    if not isinstance(t, tuple) or not t or depth > 40:
+        return t
+    if t[0] == "field" and len(t) == 3 and isinstance(t[1], tuple) and t[1] and t[1][0] == "variant" and t[1][2] == "Ok" and str(t[2]) == "0":
+        return ("okval", norm_ok(t[1][1], depth + 1))
+    return tuple(norm_ok(x, depth + 1) for x in t)
+
+
 def counter_delta(stores, counter_key):
     """sum of increments applied by a sequence of store events to the counter; None if a store is not an increment"""
     total = []
@@ -112,11 +121,12 @@ def run(chk, F, tier):
             if ev[1] == tr + "::" + name and (len(got) != nargs - 1 or any(not is_arg(g, i + 2) for i, g in enumerate(got))):
                 probs.append("passes (%s) instead of its own arguments" % ", ".join(mir.fmt(a) for a in ev[2][1:]))
             # result pass-through: directly, through Result::inspect, or Ok(okval) after `?`
-            r = p.ret
+            r = norm_ok(p.ret)
             insp = [e for e in p.calls() if e[1].endswith("Result::<T, E>::inspect") and e[2][0] == res]
+            err_rebuilt = isinstance(r, tuple) and r[0] == "agg" and r[3] == "Err" and r[4] and r[4][0] == ("field", ("variant", res, "Err"), "0")
             ok_ret = (r == res) or (insp and r == insp[0][3]) or \
                 (isinstance(r, tuple) and r[0] == "agg" and r[3] == "Ok" and r[4][0] == ("okval", res)) or \
-                r == ("from_residual", ("residual", res))
+                r == ("from_residual", ("residual", res)) or err_rebuilt
             if not ok_ret:
                 probs.append("returns %s, not the inner result" % mir.fmt(r))
             # ---- counters
@@ -125,8 +135,8 @@ def run(chk, F, tier):
                 continue
             if counter is None or name not in EFFECT:
                 continue
-            is_err_path = r == ("from_residual", ("residual", res))
-            stores = [(e[1], e[2]) for e in p.events if e[0] == "store"]
+            is_err_path = r == ("from_residual", ("residual", res)) or err_rebuilt
+            stores = [(e[1], norm_ok(e[2])) for e in p.events if e[0] == "store"]
             deltas_variants = [counter_delta(stores, counter_key)]
             sub_paths = [None]
             if insp:
@@ -164,8 +174,10 @@ def run(chk, F, tier):
                     okd = is_arg(d, want[1])
                 elif want[0] == "len":
                     okd = False
-                    if d[0] == "ret" and sp is not None:
-                        lev = [e for e in sp.calls() if e[3] == d]
+                    if d[0] == "ret":
+                        lev = [e for e in (sp if sp is not None else p).calls() if e[3] == d]
+                        if lev:
+                            lev = [tuple(norm_ok(x) if i in (2, 8) else x for i, x in enumerate(lev[0]))]
                         cl = cc.classify_call(lev[0], "len") if lev else None
                         if cl:
                             fam, param, value, _ = cl
